@@ -61,6 +61,10 @@ def run(repo, rep, tier):
     from . import c16
     L.borrow(repo, rep, "R14.4", "C16", c16._retire,
              ("retire-filter", "stale-entry-points"), minimum=2)
+    # shared registries are changed by their owner only (C15 owns the rule)
+    from . import c15
+    L.borrow(repo, rep, "R14.4", "C15", c15._store,
+             ("sys-modules-writers", "cooked-read-only"), minimum=2)
     L.state_rule(repo, rep)
 
 
